@@ -83,6 +83,14 @@ var c10Named = []struct {
 	{"SELECT id FROM `t[-1]`", false},
 	{"SELECT `n[9].v` AS x FROM t", false},
 	{"SELECT id FROM t[7]", true},
+	{"SELECT `tags[first]` AS t FROM t", false},
+	{"SELECT id FROM `t[(1:`", false},
+	{"SELECT id FROM `t[each:each:each:0]`", false},
+	{"SELECT `n{v|bogus}` AS c FROM t", false},
+	{"SELECT `bogus=>n` AS c FROM t", false},
+	{"SELECT `n[(2:1)]` AS c FROM t", false},
+	{"SELECT `n[(-1:9)]` AS c FROM t", false},
+	{"SELECT `n::::[0]` AS c FROM t", false},
 	{"SELECT DISTINCT (SELECT v FROM n) AS s, * FROM t", false},
 	{"SELECT DISTINCT *, (SELECT ip FROM `<-meta`) AS m FROM t", false},
 	{"SELECT DISTINCT id, (SELECT v, (SELECT ip FROM `<-<-meta`) AS ip FROM n) AS s, * FROM t", false},
@@ -118,6 +126,9 @@ var c10Named = []struct {
 }
 
 var c10Tokens = []string{"SELECT ", " FROM ", " WHERE ", " JOIN ", " ON ", " UNION ", " WITH ", " AS ", "(", ")", "[", "]", "{", "}", "`", "'", "\"", "<-", ".", ",", "*", "=", " NATURAL ", " PARALLEL ", " GROUP BY ", " ORDER BY ", " LIMIT ", "ASYNC.", "SPIN.", "ONCE.", "GLOBAL.", "SCOPED.", "AWAIT(", "NULL", "0", "-1", "99999999999", "\x00", "\xff", "%", ";", "--", "/*", "::", "=>", "each", "keep", "begin", "end", ":"}
+
+var c10SelectorTokens = []string{"[", "]", "(", ")", ":", "each", "keep=>", "begin", "end", "first", "last", "0", "1", "-1", "99", "2:1", "{", "}", "|", "string", "number", "bogus",
+	"'", ".", "::", "=>", "distinct=>", "mix=>", "<-", "*", " ", "id", "v", "w", "n", "tags", "grid", ",", "[0]", "[(1:end)]", "[(begin:", "[each:0]", "{v|string}", "{v|bogus, w}", "[keep=>0:1]"}
 
 func mutateQuery(t *rapid.T, q string) string {
 	n := rapid.IntRange(1, 4).Draw(t, "nmut")
@@ -228,7 +239,7 @@ func c10FollowUp(t *rapid.T) casefmt.Op {
 }
 
 func genC10(t *rapid.T) *Bundle {
-	kind := rapid.SampledFrom([]string{"fault", "fault", "fault", "pjoin", "mutated", "mutated", "bytes", "odd_doc", "options"}).Draw(t, "kind")
+	kind := rapid.SampledFrom([]string{"fault", "fault", "fault", "pjoin", "mutated", "mutated", "bytes", "odd_doc", "options", "selector", "selector"}).Draw(t, "kind")
 	sim := drawSim(t, "")
 	exp := c10Expect{Kind: kind}
 	doc := c10Doc(t)
@@ -264,6 +275,8 @@ func genC10(t *rapid.T) *Bundle {
 		}
 		stubs.Lat = drawLatencies(t, all, 6)
 		tags = append(tags, "shape:"+fq.Shape)
+		// most callers install no UnReportedErrors handler
+		op.NoHandlers = rapid.Bool().Draw(t, "no_handlers")
 	case "pjoin":
 		jt := rapid.SampledFrom([]string{"PARALLEL JOIN", "PARALLEL LEFT JOIN", "PARALLEL RIGHT JOIN", "PARALLEL STRAIGHT_JOIN", "PARALLEL HASH_JOIN", "PARALLEL LEFT HASH_JOIN", "JOIN", "LEFT JOIN"}).Draw(t, "jt")
 		on := rapid.SampledFrom([]string{"x.f AND y.g", "x.id = y.id AND x.f", "x.a + 1 > y.id", "x.id < y.id OR x.f", "x.s = y.b", "x.id = y.id", "x.o = y.id", "x.n = y.id", "x.id >= y.id AND fid(1, x.a) > 0", "x.f"}).Draw(t, "on")
@@ -292,6 +305,27 @@ func genC10(t *rapid.T) *Bundle {
 			}
 			op.Query = strings.ReplaceAll(op.Query, "x.id", "x.id"+suffix)
 			op.Query = strings.ReplaceAll(op.Query, "y.id", "y.id"+suffix)
+		}
+	case "selector":
+		// well-formed and malformed texts of the selector language, as a column and as a FROM path
+		n := rapid.IntRange(1, 7).Draw(t, "nseltok")
+		var sb strings.Builder
+		for i := 0; i < n; i++ {
+			sb.WriteString(rapid.SampledFrom(c10SelectorTokens).Draw(t, "seltok"))
+		}
+		sel := sb.String()
+		if rapid.Bool().Draw(t, "sel_valid_prefix") {
+			sel = rapid.SampledFrom([]string{"tags", "n", "grid", "t", "o"}).Draw(t, "selbase") + sel
+		}
+		if rapid.Bool().Draw(t, "sel_in_from") {
+			op.Query = fmt.Sprintf("SELECT id FROM `%s`", sel)
+		} else {
+			op.Query = fmt.Sprintf("SELECT id, `%s` AS c FROM t", sel)
+		}
+		for _, r := range doc["t"].([]any) {
+			m := r.(map[string]any)
+			m["tags"] = []any{"x", "x", "y"}
+			m["grid"] = []any{[]any{1.0, 2.0}, []any{3.0}}
 		}
 	case "mutated":
 		base := rapid.SampledFrom(c10BaseQueries).Draw(t, "base")
@@ -425,6 +459,7 @@ func corpusC10() []*Bundle {
 				c := oneClientCase("C10", casefmt.SimConfig{Strategy: "walk", Seed: 4, WalkP: 0.3, MapPolicy: "sorted", StepBudget: 2000000}, doc, casefmt.Op{Doc: 0, Vars: -1, Query: q}, c10FollowUp(nil))
 				c.Stubs.Faults = []casefmt.Fault{{ID: 1, K: 2, Kind: fk}}
 				c.Stubs.Lat = []casefmt.LatRule{{ID: 1, Call: -1, Ns: 1000000}}
+				c.Clients[0].Ops[0].NoHandlers = fk != "panic_str"
 				out = append(out, &Bundle{Prop: "C10", Kind: "bg_fault", Case: c, Expect: mustJSON(c10Expect{Kind: "bg_fault", Query: q}), Tags: []string{"corpus", "kind:bg_fault", "fault:" + fk, "strategy:" + st, "fault_in_background_call"}})
 			}
 		}
